@@ -36,7 +36,12 @@ def main(argv=None):
             if args.replay:
                 with open(args.replay) as f:
                     rp = json.load(f)
-                print(json.dumps(prop.replay_file(rp), indent=1, default=str))
+                report, fails = prop.replay_file(rp, base.new_world)
+                report["repo_src"] = extract.REPO_SRC
+                print(json.dumps(report, indent=1, default=str))
+                if fails:
+                    print(f"VIOLATION property={pid} replay={args.replay}")
+                worst = max(worst, 1 if fails else 0)
                 continue
             rc = run.run_property(prop, args.tier, seed, base.new_world)
         except Exception:
